@@ -108,6 +108,7 @@ func runC03(c *Ctx) {
 	}
 	runC03Req(c, wl)
 	runC03Missing(c)
+	runC03Seen(c)
 	runC03Iface(c, wl)
 }
 
